@@ -49,7 +49,7 @@ INT_VALUES = {"OBJSENSE": [-1, 1, 0, 2], "REPRESENTATION": [0, 1, 2, 3], "ALGORI
               "FACTOR_UPDATE_MAX": [0, 1, 5, 200, -1], "ITERLIMIT": [-1, 0, 1, 2, 5, 100, -2], "REFLIMIT": [-1, 0, 1, 3],
               "STALLREFLIMIT": [-1, 0, 2], "DISPLAYFREQ": [1, 10, 200, 0], "VERBOSITY": [0, 1, 3, 5, 6], "SIMPLIFIER": [0, 1, 2, 3, 4],
               "SCALER": [0, 1, 2, 3, 4, 5, 6, 7], "STARTER": [0, 1, 2, 3, 4], "PRICER": [0, 1, 2, 3, 4, 5, 6],
-              "RATIOTESTER": [0, 1, 2, 3, 4], "SYNCMODE": [0, 1, 2, 3], "READMODE": [0, 1, 2], "SOLVEMODE": [0, 1, 2, 3],
+              "RATIOTESTER": [0, 1, 2, 3, 4], "SYNCMODE": [0, 1, 1, 3], "READMODE": [0, 1, 2], "SOLVEMODE": [0, 1, 2, 3],
               "CHECKMODE": [0, 1, 2, 3], "TIMER": [0, 1, 2], "HYPER_PRICING": [0, 1, 2, 3], "RATFAC_MINSTALLS": [0, 2, 5],
               "LEASTSQ_MAXROUNDS": [0, 5, 50], "SOLUTION_POLISHING": [0, 1, 2, 3], "STATTIMER": [0, 1, 2],
               "STORE_BASIS_SIMPLEX_FREQ": [0, 1, 10]}
@@ -189,7 +189,10 @@ class Gen:
         if k < 5:
             # SCALER is changed only before the first solve: switching the scaler off while the LP is stored scaled makes
             # SoPlexBase::getRowVectorReal dereference the null _scaler (C++ side, reported; not a C-interface matter)
-            name = r.choice(sorted(n for n in INT_VALUES if not (solved and n == "SCALER")))
+            # the rational modes are switched on only before the first solve as well: a rational solve on an LP that a real solve
+            # left stored scaled is C07/C03 matter (DESIGN 9 #8: the scaled LP is copied into the rational LP; objReal faults afterwards)
+            late = {"SCALER", "SYNCMODE", "SOLVEMODE", "CHECKMODE", "READMODE"}
+            name = r.choice(sorted(n for n in INT_VALUES if not (solved and n in late)))
             return "setIntParam %d %d" % (self.IP[name], r.choice(INT_VALUES[name]))
         if k < 7:
             names = sorted(n for n in self.BP if n not in BOOL_EXCLUDE)
@@ -279,7 +282,7 @@ class Gen:
         for _ in range(r.randrange(1, 4)):
             lines.append(r.choice(["int:iterlimit = %d" % r.choice([-1, 3, 50]), "bool:lifting = %s" % r.choice(["true", "false"]),
                                    "real:feastol = 1e-7", "int:pricer = %d" % r.randrange(6), "int:objsense = %d" % r.choice([-1, 1]),
-                                   "int:nosuchparam = 3", "real:opttol = -1", "# comment", "int:syncmode = %d" % r.choice([0, 1, 2]),
+                                   "int:nosuchparam = 3", "real:opttol = -1", "# comment", "int:iterlimit = 1000",
                                    "int:algorithm = %d" % r.randrange(2)]))
         return "\n".join(lines) + "\n"
 
@@ -290,7 +293,9 @@ class Gen:
         if style < 3:
             ops.append("setRational")
         elif style == 3:
-            ops.append("setIntParam %d %d" % (self.IP["SYNCMODE"], r.choice([1, 2])))
+            # (SYNCMODE_MANUAL is used in a fixed case only: the C interface has no sync call, and switching from manual to
+            #  auto with the two LPs out of step makes the C++ modifiers index the rational LP out of range)
+            ops.append("setIntParam %d 1" % self.IP["SYNCMODE"])
         if r.randrange(3):
             ops.append("setIntParam %d %d" % (self.IP["OBJSENSE"], r.choice([-1, 1])))
         if r.randrange(8) == 0:
@@ -324,7 +329,7 @@ class Gen:
                 ops.append("readSettingsFile " + hexs(self.settings()))
             elif k < 88:
                 ops.append("readInstanceFile lp " + hexs(self.lpfile()))
-            elif k < 90:
+            elif k < 90 and not solved:
                 ops.append("setRational")
                 rational = True
             elif k < 94 and rational:
@@ -380,6 +385,11 @@ def fixed_cases(tab):
     cs.append({"ops": ["setRational", "addColRational 3 0 -1 -2 1 -3 4 2 | -3 0 5 | -6 0 1", "addRowRational @rn+2 0 -7 1 7 -1 | 0 -2 0 | 0 3 0",
                        "changeObjRational @rn | -1 0 3 | 1 5 -2", "changeVarBoundsRational 1 -4 -2 -9 -3", "getRowBoundsRational 3",
                        "getRowBoundsRational 0", "optimize", "objValueRationalString", "getPrimalRationalString @pn"], "risky": False})
+    # SYNCMODE_MANUAL: the two LPs are independent; rational calls address the rational LP only
+    cs.append({"ops": ["setIntParam %d 2" % IP["SYNCMODE"], "addColReal 2 2 1:0 0:0 1:2 | 1:0 1:1", "addColRational 1 1 -1 3 0 1 5 2 | -2 | 3",
+                       "addRowRational @rn 1 -1 2 7 2 | 3 | -4", "numRows", "numCols", "changeObjRational @rn | 5 | -7", "changeVarBoundsRational 0 -1 2 9 4",
+                       "getRowBoundsRational 1", "getRowBoundsReal 1", "changeLhsRational @rm | -3 1 | 4 1", "changeRhsRational @rm | 3 11 | 4 2",
+                       "getRowBoundsRational 0", "getRowBoundsRational 1"], "risky": False})
     # rational calls without a rational LP (SYNCMODE_ONLYREAL): ignored by the C++ members
     cs.append({"ops": ["addColRational 2 2 1 1 0 1 5 1 | 1 2 | 1 1", "addRowRational 2 2 0 1 5 1 | 1 2 | 1 1", "changeObjRational 0 | 1 | 1",
                        "changeVarBoundsRational 0 0 1 1 1", "numCols", "getPrimalRationalString 3", "getRowBoundsRational 0"], "risky": False})
@@ -519,6 +529,7 @@ def judge(case, hl, ml, stderr=""):
     """findings of one case: list of (signature, text, op index)"""
     out = []
     mi = 0
+    state_diverged = False
     for d in hl:
         j, op = d["j"], d["op"]
         if "process" in d:
@@ -583,7 +594,12 @@ def judge(case, hl, ml, stderr=""):
             else:
                 out.append(("ret-mismatch:" + op, "SoPlex_%s returned %s, the C++ call %s (args %s)" % (op, c[:300], x[:300], d.get("args", "")[:200]), j))
         # (b) state of the two objects
-        if d.get("eq") == "0":
+        if d.get("eq", "").startswith("DUMP"):
+            out.append(("cpp-getter-fault-after:" + op, "after SoPlex_%s(%s) a C++ getter used for the comparison faults (%s); pre=%s" % (
+                op, d.get("args", "")[:100], d["eq"], d.get("pre")), j))
+            break
+        if d.get("eq") == "0" and not state_diverged:
+            state_diverged = True          # later differences in this case are consequences
             diff = d.get("diff", ["", ""])
             fields = ""
             if len(diff) == 2:
@@ -600,7 +616,8 @@ def judge(case, hl, ml, stderr=""):
                 if obs != pred:
                     out.append(("pred-mismatch:" + op, "SoPlex_%s(%s): the object holds %s, the model's conversion gives %s" % (
                         op, d.get("args", "")[:200], obs[:300], pred[:300]), j))
-            if op in WR_OPS and x is not None and d.get("wr", "-") != m.get("wr", "-"):
+            in_sync = pre[3] == "0" or (pre[5] == pre[1] and pre[6] == pre[0])     # SYNCMODE_MANUAL: solution may live in the rational LP's dimensions
+            if op in WR_OPS and x is not None and in_sync and d.get("wr", "-") != m.get("wr", "-"):
                 lpdim = int(pre[0]) if op == "getDualReal" else int(pre[1])
                 if op in ("getPrimalReal", "getDualReal", "getRedCostReal") and c == x and c not in (".", "-") and len(c.split(",")) > lpdim:
                     out.append(("cpp-array-getter-stores-beyond-dim:" + op, "the C++ member %s(array, dim=%s) stores %d elements for an LP dimension of %d "
